@@ -432,10 +432,10 @@ func runStateless(o slOpts, rts [2]wazero.Runtime, progs []*Prog, only int, only
 				if why != "" {
 					bad = fmt.Sprintf("%s: compiler=%s interpreter=%s", why, fmtVals(p.Results, sa[:nr]), fmtVals(p.Results, sb[:nr]))
 					if p.Expect != nil {
-						bad += " reference=" + fmtVals(p.Results, p.Expect(v))
+						bad += " reference=" + fmtVals(p.Results, p.Expect(v, sb[:nr]))
 					}
 				} else if p.Expect != nil {
-					want := p.Expect(v)
+					want := p.Expect(v, sa[:nr])
 					if w2, _ := valuesAgree(p.Results, p.ResTaint, sa[:nr], want); w2 != "" {
 						bad = fmt.Sprintf("both engines deviate from the generator's reference (%s): engines=%s reference=%s", w2, fmtVals(p.Results, sa[:nr]), fmtVals(p.Results, want))
 					}
